@@ -42,7 +42,7 @@ ASSUMPTIONS = [
 ]
 
 SYMS = ["<a>", "<b>", "<c>"]
-TERMS = ["x", "y", "", "é", b"\x00z", 0, 1]
+TERMS = ["x", "y", "", "é", b"\x00z", 0, 1, "<a>", "<b>"]  # incl. terminals spelled like nonterminal names
 
 
 def shards(tier: str) -> int:
@@ -156,8 +156,30 @@ class Pool:
                     v = bytes(v)
                 self.roots.append(DerivationTree(Terminal(v)))
             return invariants(self.roots, where)
+        if kind == "new_lookalike":
+            # a TERMINAL spelled like a nonterminal name
+            self.roots.append(DerivationTree(Terminal(op[1])))
+            return invariants(self.roots, where)
         if not self.roots:
             return []
+        if kind == "twin":
+            # a copy of a tree in which childless nonterminals and terminals of the same spelling change places
+            root = self.roots[op[1] % len(self.roots)]
+            if count(root) > 60:
+                return []
+
+            def twin(t: Any) -> Any:
+                if not t.children and t.symbol.is_non_terminal:
+                    return DerivationTree(Terminal(t.symbol.name()), sender=t.sender, recipient=t.recipient)
+                if not t.children and t.symbol.is_terminal and isinstance(t.symbol._value._value, str) \
+                        and t.symbol._value._value.startswith("<") and not t.symbol._value._trailing_bits:
+                    return DerivationTree(NonTerminal(t.symbol._value._value), sender=t.sender, recipient=t.recipient)
+                return DerivationTree(t.symbol, [twin(c) for c in t.children], sender=t.sender, recipient=t.recipient)
+
+            self.roots.insert(0, twin(root))
+            self.roots.insert(0, self.roots.pop(self.roots.index(root)))  # both among the compared roots
+            self.nontrivial = True
+            return invariants(self.roots, where)
         if kind == "add_child":
             root, n = self.node(op[1], op[2])
             if n.symbol.is_terminal:
@@ -309,6 +331,14 @@ def make_machine(ctx: Any) -> Any:
         def new(self, v: Any) -> None:
             self._do(["new", v])
 
+        @rule(v=st.sampled_from(SYMS))
+        def new_lookalike(self, v: str) -> None:
+            self._do(["new_lookalike", v])
+
+        @rule(r=st.integers(0, 20))
+        def twin(self, r: int) -> None:
+            self._do(["twin", r])
+
         @rule(r=st.integers(0, 20), n=st.integers(0, 40), c=st.integers(0, 20))
         def add_child(self, r: int, n: int, c: int) -> None:
             self._do(["add_child", r, n, c])
@@ -375,6 +405,15 @@ SPECS_B = [
                ["len", ["alt", [["lit", c] for c in "0123"]]],
                ["item", ["alt", [["lit", "a"], ["seq", [["lit", "b"], ["opt", ["nt", "item"]]]]]]]],
      "mode": "text", "constraints": ["str(<item>) != 'a'"]},
+    # computed repetitions with siblings BEHIND the repetition, and with the repeated symbol also outside it
+    {"rules": [["start", ["seq", [["nt", "len"], ["lit", ":"], ["crep", ["nt", "item"], "int(<len>)"], ["lit", ";"], ["nt", "w"]]]],
+               ["len", ["alt", [["lit", c] for c in "1234"]]], ["item", ["alt", [["lit", "a"], ["lit", "b"]]]],
+               ["w", ["plus", ["alt", [["lit", "p"], ["lit", "q"]]]]]],
+     "mode": "text", "constraints": ["len(str(<w>)) >= 2"]},
+    {"rules": [["start", ["seq", [["nt", "len"], ["nt", "item"], ["lit", ";"], ["crep", ["nt", "item"], "int(<len>)"], ["nt", "trailer"]]]],
+               ["len", ["alt", [["lit", c] for c in "2345"]]], ["item", ["alt", [["lit", c] for c in "abcd"]]],
+               ["trailer", ["seq", [["lit", "!"], ["nt", "item"]]]]],
+     "mode": "text", "constraints": ["str(<start>).count('a') >= 2"]},
     {"rules": [["start", ["seq", [["nt", "n"], ["lit", "#"], ["nt", "w"], ["opt", ["nt", "n"]]]]],
                ["n", ["plus", ["alt", [["lit", c] for c in "0123456789"]]]],
                ["w", ["plus", ["alt", [["lit", "p"], ["lit", "q"]]]]]],
